@@ -2,7 +2,8 @@
 
 Each entry: name -> builder(rng, variant) returning (callable, args tuple, kwargs dict).
 `variant` selects the memory layout / boundary form of the array arguments:
-  plain | fortran | view (non-contiguous, negative stride) | readonly | singleton | empty | extreme
+  plain | fortran | view (non-contiguous, negative stride) | readonly | singleton | empty | extreme |
+  tview (axes reversed inside a padded parent) | midsingle (a single-element axis that is not trailing, tview layout)
 A builder may raise Skip when a variant makes no sense for the routine.
 All argument objects must be reachable from (args, kwargs) so that they are snapshotted.
 """
@@ -13,7 +14,21 @@ class Skip(Exception):
     pass
 
 
-VARIANTS = ["plain", "fortran", "view", "readonly", "singleton", "empty", "extreme"]
+VARIANTS = ["plain", "fortran", "view", "readonly", "singleton", "empty", "extreme", "tview", "midsingle"]
+# layouts whose arrays are views into a larger padded parent buffer: the worker calls these twice with
+# different padding values (results must not depend on the padding = no reads outside the view) and checks
+# that the padding is intact afterwards (no writes outside the view)
+PADDED = ("view", "tview", "midsingle")
+FILL = [0]            # padding value used by lay() for the padded layouts (set by the worker)
+PARENTS = []          # (parent buffer, boolean mask of the cells that belong to the view, fill value)
+
+
+def _fill_value(dtype, fill):
+    if np.dtype(dtype) == np.bool_:
+        return bool(fill)
+    if np.dtype(dtype).kind in "iu":
+        return int(fill) % 100 if np.dtype(dtype).kind == "u" else int(fill)
+    return fill
 
 
 def lay(a, variant):
@@ -24,13 +39,28 @@ def lay(a, variant):
     if variant == "fortran":
         return np.asfortranarray(a)
     if variant == "view":
-        big = np.zeros(tuple(2 * s for s in a.shape), dtype=a.dtype)
+        fv = _fill_value(a.dtype, FILL[0])
+        big = np.full(tuple(2 * s for s in a.shape), fv, dtype=a.dtype)
         sl = tuple(slice(None, None, 2) for _ in a.shape)
         big[sl] = a
+        if a.ndim:
+            m = np.zeros(big.shape, dtype=bool); m[sl] = True
+            PARENTS.append((big, m, fv))
         v = big[sl]
         if a.ndim >= 1 and a.shape[0] > 1:
             v = v[::-1][::-1]   # same values, exercised through two negative-stride views
         return v
+    if variant in ("tview", "midsingle"):
+        # axes reversed (neither C nor Fortran order) inside a padded parent, stride 2, offset 1
+        if a.ndim == 0:
+            return a
+        fv = _fill_value(a.dtype, FILL[0])
+        big = np.full(tuple(2 * s + 1 for s in a.shape[::-1]), fv, dtype=a.dtype)
+        sl = tuple(slice(1, None, 2) for _ in a.shape)
+        big[sl] = a.transpose()
+        m = np.zeros(big.shape, dtype=bool); m[sl] = True
+        PARENTS.append((big, m, fv))
+        return big[sl].transpose()
     if variant == "readonly":
         b = a.copy()
         b.setflags(write=False)
@@ -43,6 +73,11 @@ def shape_for(variant, shape):
         return tuple(1 for _ in shape)
     if variant == "empty":
         return (0,) + tuple(shape[1:])
+    if variant == "midsingle":      # a single-element axis that is NOT trailing
+        if len(shape) >= 3:
+            return (shape[0], 1) + tuple(shape[2:])
+        if len(shape) == 2:
+            return (1, shape[1])
     return shape
 
 
@@ -217,6 +252,59 @@ def _(rng, v):
         R = HistogramRegistration(im, im, from_bins=4, to_bins=4, interp="pv")
         return R.eval(Affine())
     return f, (img,), {}
+
+
+@entry("_joint_histogram kernel: coordinates on, across and far beyond both grid borders, pv/tri/rand")
+def _(rng, v):
+    from nipy.algorithms.registration._registration import _joint_histogram
+    if v in ("empty", "singleton", "midsingle"):
+        raise Skip()
+    ci, cj = 3, 8
+    dims = (3, 4, 3)
+    # high-contrast target (mostly the two extreme bins): extrapolating weights then leave the bin range
+    J = np.where(rng.random(dims) < 0.7, rng.choice([0, cj - 1], dims), rng.integers(0, cj, dims)).astype(np.short)
+    Jp = -np.ones(tuple(s + 2 for s in dims), dtype=np.short)
+    Jp[1:-1, 1:-1, 1:-1] = J
+    n = 300
+    I = lay(rng.integers(-1, ci, (n, 1, 1)).astype(np.short), v if v in ("view", "tview", "fortran", "readonly") else "plain")
+    # coordinates in the (unpadded) target grid: the kernel accepts the open range (-1, dim).  Per point: in-grid
+    # coordinates with ONE axis across the lower or the upper border, lattice points incl. the borders, all axes
+    # anywhere, or on / far beyond the limits
+    T = np.empty((n, 3))
+    for p in range(n):
+        sc = int(rng.integers(0, 6))
+        for k, s_ in enumerate(dims):
+            T[p, k] = rng.uniform(0, s_ - 1)                       # inside the grid
+        ax = int(rng.integers(0, 3)); s_ = dims[ax]
+        if sc == 0:
+            T[p, ax] = rng.uniform(-1, 0)
+        elif sc == 1:
+            T[p, ax] = rng.uniform(s_ - 1, s_)
+        elif sc == 2:
+            T[p] = [int(rng.integers(-2, d_ + 2)) for d_ in dims]
+        elif sc == 3:
+            T[p] = [rng.uniform(-1.5, d_ + 0.5) for d_ in dims]
+        elif sc == 4:
+            T[p, ax] = rng.choice([-3.5, -1.0, -1 + 1e-9, -1e-9, s_ - 1e-9, float(s_), s_ + 3.5])
+    if v == "extreme":
+        T[0] = [1e300, -1e300, 1e18]
+        T[1] = [np.inf, 0, 0]
+        T[2] = [-np.inf, 1, 1]
+        T[3] = [2 ** 31, 2 ** 31 + 0.5, -2 ** 31 - 0.5]
+    guard = 32
+    buf = np.full(guard + ci * cj + guard, float(FILL[0]))
+    m = np.zeros(buf.shape, dtype=bool); m[guard:guard + ci * cj] = True
+    PARENTS.append((buf, m, float(FILL[0])))
+
+    def f(I, Jp, T):
+        out = []
+        for interp in (0, 1, -1):
+            H = buf[guard:guard + ci * cj].reshape(ci, cj)
+            H[:] = 0
+            _joint_histogram(H, I.flat, Jp, T, interp)
+            out.append(H.copy())
+        return out
+    return f, (I, Jp, T), {}
 
 
 @entry("_cspline_transform/_cspline_sample3d")
@@ -486,6 +574,81 @@ def _(rng, v):
         raise Skip()
     A = data(rng, v, (3, 3)); B = data(rng, v, (3, 3)); C = data(rng, v, (3, 3)); x = data(rng, v, (4,))
     return (lambda A, B, C, x: (blas_dgemm(0, 0, 1., A, B, 0., C), blas_ddot(x, x), blas_dnrm2(x))), (A, B, C, x), {}
+
+
+@entry("labs.bindings wrapper/array (fff_array views, 1-d..4-d)")
+def _(rng, v):
+    from nipy.labs.bindings import wrapper, array as farr
+    if v in ("empty",):
+        raise Skip()
+    shapes = [(5,), (3, 4), (3, 2, 4), (2, 3, 2, 3)]
+    Xs = [data(rng, v, sh) for sh in shapes]
+    Ys = [lay(np.array(X) + 1, v) for X in Xs]
+
+    def f(Xs, Ys):
+        out = []
+        for X, Y in zip(Xs, Ys):
+            out.append(wrapper.pass_array(X))
+            out.append(farr.array_add(X, Y)); out.append(farr.array_sub(X, Y))
+            out.append(farr.array_mul(X, Y)); out.append(farr.array_div(X, Y))
+            if X.ndim == 1:
+                out.append(wrapper.pass_vector(X)); out.append(wrapper.copy_vector(X, 0)); out.append(wrapper.copy_vector(X, 1))
+            if X.ndim == 2:
+                out.append(wrapper.pass_matrix(X))
+            for ax in range(X.ndim):
+                out.append(wrapper.copy_via_iterators(X, ax)); out.append(wrapper.sum_via_iterators(X, ax))
+                out.append(wrapper.pass_vector_via_iterator(X, ax, 0))
+        return out
+    return f, (Xs, Ys), {}
+
+
+@entry("fmri.glm.Contrast(effect, variance) on the caller's arrays: stat/p_value/z_score/+/* with zero, tiny and negative variances")
+def _(rng, v):
+    from nipy.modalities.fmri.glm import Contrast
+    if v in ("empty",):
+        raise Skip()
+    nvox = 7
+    out_args = []
+    for dim, ctype in ((1, "t"), (1, "F"), (2, "F"), (2, "tmin-conjunction")):
+        eff = data(rng, v, (dim, nvox))
+        if eff.ndim != 2:
+            raise Skip()
+        dim_, nv = eff.shape
+        A = rng.normal(size=(dim_, dim_, nv)) + (2 * np.eye(dim_))[:, :, None]
+        var = np.einsum("ikv,jkv->ijv", A, A)
+        if nv > 3 and dim_ == 1:
+            var[..., 0] = 0.0            # constant voxel
+            var[..., 1] = 1e-60          # below the numerical floor
+            var[0, 0, 2] = -1e-17        # rounding residue
+        var = lay(var, v) if v not in ("singleton", "midsingle", "extreme") else var
+        out_args.append((eff, var, ctype))
+
+    def f(cases):
+        out = []
+        for eff, var, ctype in cases:
+            try:
+                c = Contrast(eff, var, dof=9, contrast_type=ctype)
+                out += [c.stat(), c.p_value(), c.z_score(), c.stat(baseline=0.5)]
+                c2 = Contrast(eff, var, dof=5, contrast_type=ctype)
+                s = c + c2
+                out += [s.stat(), (c * 2.0).z_score()]
+            except (ValueError, np.linalg.LinAlgError) as e:
+                out.append(type(e).__name__)
+        return out
+    return f, (out_args,), {}
+
+
+@entry("statistics.utils.multiple_mahalanobis(effect, covariance)")
+def _(rng, v):
+    from nipy.algorithms.statistics.utils import multiple_mahalanobis
+    if v in ("empty", "extreme"):
+        raise Skip()
+    x = data(rng, v, (3, 6))
+    if x.ndim != 2:
+        raise Skip()
+    A = rng.normal(size=(x.shape[0], x.shape[0], x.shape[1])) + (2 * np.eye(x.shape[0]))[:, :, None]
+    K = lay(np.einsum("ikv,jkv->ijv", A, A), v if v not in ("singleton", "midsingle") else "plain")
+    return (lambda x, K: (multiple_mahalanobis(x, K), multiple_mahalanobis(x, K))), (x, K), {}
 
 
 @entry("labs.group.onesample.stat")
